@@ -5,15 +5,19 @@ use crate::engine::{CaseResult, Ctx};
 pub mod c14;
 pub mod c15;
 pub mod c16;
+pub mod c17;
+pub mod c18;
 pub mod c19;
 
-pub const ALL: &[&str] = &["C14", "C15", "C16", "C19"];
+pub const ALL: &[&str] = &["C14", "C15", "C16", "C17", "C18", "C19"];
 
 pub fn run(c: &Ctx) -> bool {
     match c.prop.as_str() {
         "C14" => c14::run(c),
         "C15" => c15::run(c),
         "C16" => c16::run(c),
+        "C17" => c17::run(c),
+        "C18" => c18::run(c),
         "C19" => c19::run(c),
         _ => return false,
     }
@@ -25,6 +29,8 @@ pub fn replay(prop: &str, kind: &str, case: &Value) -> Option<CaseResult> {
         "C14" => c14::replay(kind, case),
         "C15" => c15::replay(kind, case),
         "C16" => c16::replay(kind, case),
+        "C17" => c17::replay(kind, case),
+        "C18" => c18::replay(kind, case),
         "C19" => c19::replay(kind, case),
         _ => None,
     }
